@@ -66,7 +66,13 @@ using T = VF_ELEM;
 #ifndef VF_SIZET
 #define VF_SIZET std::size_t
 #endif
+#ifdef VF_STDALLOC
+using A = std::allocator<T>;
+#define AID 0
+#else
 using A = vf_alloc<T, VF_AFL, VF_SIZET>;
+#define AID 7
+#endif
 using V = gch::small_vector<T, VF_N, A>;
 using S = vf_sv<V>;
 using E = vf_elem<T>;
@@ -103,9 +109,9 @@ extern "C" void vf_main(void) {
 #endif
   const int32_t live_before_all = vf_tr_live();
   {
-    V v(A(7));
+    V v(vf_amk<A>::of(AID));
     S::install(v, VF_CAP, size, vals);
-    S::check_inv(v, 1, 7);   // the installed pre-state satisfies INV (harness self-check)
+    S::check_inv(v, 1, AID);   // the installed pre-state satisfies INV (harness self-check)
 
     // ---- model
     uint32_t m[VF_MAXM]; uint32_t msz = size;
@@ -181,7 +187,7 @@ extern "C" void vf_main(void) {
 #endif
 #endif
 #ifdef VF_BIGCNT
-    vf_assume(required > (uint64_t)V(A(7)).max_size());   // only requests beyond max_size(): each must throw std::length_error before touching anything
+    vf_assume(required > (uint64_t)V(vf_amk<A>::of(AID)).max_size());   // only requests beyond max_size(): each must throw std::length_error before touching anything
 #define CNT_A ((typename V::size_type)bigcnt)
 #define CNT_B ((typename V::size_type)bigcnt)
 #else
@@ -420,7 +426,12 @@ extern "C" void vf_main(void) {
     if (threw == 0 && required > v.max_size()) vf_assert(0, "C12: request beyond max_size() did not throw std::length_error");
 
     // ---- C02 / C03 / C04 / C06 on every exit
-    S::check_inv(v, 1, 7);
+    S::check_inv(v, 1, AID);
+    if (!VF_CE) {
+      // initialisers of const variables are first tried as constant expressions (C++20): on a named local object this must still give the run-time answer
+      const bool inl_const_init = v.inlined(); const bool inlinable_const_init = v.inlinable();
+      vf_assert(inl_const_init == (cap1 == VF_N) && inlinable_const_init == (v.size() <= VF_N), "C02: inlined()/inlinable() give the run-time answer also when they initialise a const variable");
+    }
     if (E::instrumented) {
 #if VF_OP == OP_push_back_m || VF_OP == OP_insert_m
       // arg may have been moved from: still one object
@@ -437,7 +448,7 @@ extern "C" void vf_main(void) {
       v.clear();
       v.push_back(vf_mk<T>::of(1));
       vf_assert(v.size() == 1 && E::val(v[0]) == 1, "C06: container usable after an exception (clear, push_back)");
-      S::check_inv(v, 1, 7);
+      S::check_inv(v, 1, AID);
     }
 #endif
   }
